@@ -17,6 +17,13 @@
   but the partition is never handed to a second worker.  Verdicts: ok / retriable (with or without append) /
   fatal / connection error (before or after the append).  A leader lookup is resolved per forwarded message
   (the Go code resolves it once per flushed level), which only adds behaviours.
+
+  Relation to the real code (found by the trace replay of Driver/PipelineTrace.lean): with a single partition the
+  real partition producer RELEASES its broker worker at every retry-level change (unrefBrokerProducer closes it)
+  and then selects a fresh one, so the old worker drains its queue (bouncing, chaser last) concurrently with its
+  successor.  Such runs are runs of `Model.Pipeline` with several workers (they are replayed and accepted on every
+  check run) and fall under `LogOrderGeneral`; `SingleWorker` models old worker and successor as one sequential
+  process.  Real runs without a retry-level change are `SingleWorker` runs.
 -/
 import SaramaVerif.Lemmas.C02sysStepA
 import SaramaVerif.Lemmas.C02sysStepR
